@@ -25,10 +25,12 @@ CHECK_DEADLOCK FALSE
     for raw in ctx.tlc_lines(res, "CASE"):
         cases.append(json.loads(raw.strip()[1:-1].replace('\\"', '"')))
     kt = ctx.tlc_lines(res, "KTABLE")
-    if not cases or not kt:
+    bn = ctx.tlc_lines(res, "BIGN")
+    if not cases or not kt or not bn:
         raise Inconclusive("TLC generated no cases")
     ktable = json.loads(kt[0].strip()[1:-1].replace('\\"', '"'))
-    return res, cases, ktable
+    bign = json.loads(bn[0].strip()[1:-1].replace('\\"', '"'))
+    return res, cases, ktable, bign
 
 
 def run(ctx):
@@ -36,7 +38,7 @@ def run(ctx):
     # 1. design level: DKG + Lagrange recovery over GF(P), every dealing, delivery order, arrival order
     ref = ctx.tlc("Threshold", cfg="Threshold.cfg" if quick else "Threshold_wide.cfg", coverage=not quick, timeout=1500)
     # 2. TLC enumerates (n, responding subset, order class) and checks the recovery algebra per case
-    gen, cases, ktable = gen_cases(ctx, 7 if quick else 10, [1, 7], 6 if quick else 7)
+    gen, cases, ktable, bign = gen_cases(ctx, 7 if quick else 10, [1, 7], 6 if quick else 7)
     drv = ctx.build("c13")
     shards = 8 if quick else 16
     argvs, traces = [], []
@@ -49,7 +51,12 @@ def run(ctx):
         argv = [drv, "--script", sp, "--out", tp, "--scratch", os.path.join(ctx.scratch, "run%d" % k),
                 "--random", str(3 if quick else 12), "--reps", str(2 if quick else 4), "--salt", str(k)]
         if k == 0:
-            argv.append("--ktable")
+            # thresholds of the signing side and of the DKG for every group size up to 1024
+            argv += ["--ksweep", "1024"]
+        if k == 1:
+            # one real DKG + recovery where rounding up and "floor + 1" of 51% differ (n = 100), and next to it
+            big = sorted(set(bign + ([] if quick else [b + d for b in bign for d in (-1, 1)])))
+            argv += ["--big", ",".join(str(b) for b in big)]
         argvs.append(argv)
     outs = ctx.run_parallel(argvs, timeout=1500)
     counts = {}
@@ -60,7 +67,7 @@ def run(ctx):
             raise Inconclusive("driver printed no summary")
         for key, v in re.findall(r"(\w+)=(\d+)", line[-1]):
             counts[key] = counts.get(key, 0) + int(v)
-    for need in ("cases", "dkg", "deliver", "dupDeliver", "arrive", "recovered", "superset", "below", "k"):
+    for need in ("cases", "dkg", "deliver", "dupDeliver", "arrive", "recovered", "superset", "below", "k", "big"):
         if counts.get(need, 0) == 0:
             raise Inconclusive("vacuity: no %s events were produced" % need)
     # 3. one monitor run over all shards (DkgStart / CaseStart reset the bound state)
@@ -98,6 +105,8 @@ def run(ctx):
         "superset_recoveries": counts["superset"],
         "below_threshold_cases": counts["below"],
         "k_table_model": ktable[:10],
+        "threshold_sweep_sizes": counts["k"],
+        "big_group_sizes": bign if quick else sorted(set(bign + [b + d for b in bign for d in (-1, 1)])),
         "action_coverage": ref["coverage"],
         "exhaustive": True,
         "explanation": "Threshold.tla (DKG dealing/delivery/aggregation + Lagrange recovery over GF(P)) model-checked exhaustively "
@@ -109,6 +118,6 @@ def run(ctx):
     finish(ctx, "model_checking", coverage, [
         "secret shares and curve points are not visible to TLA+: the driver logs verdicts of the real VerifySig, return codes, counts and equality classes of serialized values",
         "the member public share is GeneratePubkey(member secret share) as the node publishes it (the DKG publishes no coefficient commitments)",
-        "group sizes 3..%d (dev minimum 3, maximum 10); member ids are seeded 32-byte values, one per group with leading zero bytes" % sizes[-1],
+        "exhaustive subsets for group sizes 3..%d (dev minimum 3, default maximum 10); beyond that only the threshold consistency sweep (1..1024) and one DKG + one recovery at the sizes where rounding modes of 51%% differ; member ids are seeded 32-byte values, one per group with leading zero bytes" % sizes[-1],
         "the design-level model works over GF(11)/GF(7) instead of the 254-bit group order",
     ])
